@@ -157,11 +157,14 @@ fn exec(cache: &Cache, op: &Resolved) -> Result<(), String> {
                         if got != want { return Err(format!("walk kind {} returned {:?}, expected {:?}", kind, got, want)); }
                     }
                     if *full {
+                        let mut steps = 0usize;
                         loop {
                             let got = it.next().map($map);
                             let want = expect(false).map($proj);
                             if got != want { return Err(format!("walk kind {} returned {:?}, expected {:?}", kind, got, want)); }
                             if got.is_none() { break; }
+                            steps += 1;
+                            if steps > n + 2 { return Err(format!("walk kind {} does not terminate", kind)); }
                         }
                     }
                 }};
